@@ -4,6 +4,8 @@ import numpy as np
 from vmon import gen, instr
 from vmon.props import c16
 
+from vmon.scale import S
+
 ID = 'C17'
 RULE = ('cases = synthetic STFT scenes: K 2..3 sources with a frame-level activity partition shared by all bins (every source >= 15 % of the '
         'frames), random steering vectors per bin, random source spectra, sensor noise 40 dB below, D in K+1..8, F in {33, 65, 257}, T 60..200, a '
@@ -20,7 +22,7 @@ BEAMFORMERS = ['mvdr_souden', 'gev', 'gev+ban', 'rank1_pca+mvdr_souden', 'rank1_
 
 def plan(tier, seed):
     rng = np.random.default_rng([seed, 117])
-    n = 24 if tier == 'quick' else 420
+    n = S(tier, 24, 420)
     cases = []
     for i in range(n):
         K = int(rng.integers(2, 4))
@@ -83,7 +85,7 @@ def run_case(case, R):
                 post = d.CWMMTrainer().fit_predict(Yt, initialization=init, iterations=case['iters'])
         est = np.transpose(post, (1, 0, 2))                            # (K, F, T)
         est = al(est)
-        gm = pa.OraclePermutationAlignment('cos').calculate_mapping(est.reshape(K, F * T), truth.reshape(K, F * T))
+        gm = (pa.OraclePermutationAlignment() if case['rs'][-1] % 2 else pa.OraclePermutationAlignment('cos')).calculate_mapping(est.reshape(K, F * T), truth.reshape(K, F * T))
         est = est[gm]
     except Exception as e:
         R.fail('C17.map-accuracy', f'pipeline/raised/{case["model"]}', f'pipeline raised {type(e).__name__}: {str(e)[:120]}', **info)
